@@ -245,7 +245,7 @@ def p_hnode():
 
 def h_children(st, n):
     st.assume(H_NCH(n) >= 0)
-    return VSeq(H_NCH(n), lambda i, n=n: hnode(H_CH(n, i)), "HNode")
+    return VSeq(H_NCH(n), lambda i, n=n: hnode(H_CH(n, i)), "HNode", tag=("hn.children", n))
 
 
 # ------------------------------------------------------------ rows of strings --
@@ -264,7 +264,7 @@ def p_strrow():
 
 def row_seq(st, r):
     st.assume(RLEN(r) >= 0)
-    return VSeq(RLEN(r), lambda j, r=r: VStr(RCELL(r, j)), "str")
+    return VSeq(RLEN(r), lambda j, r=r: VStr(RCELL(r, j)), "str", tag=("row.cells", r))
 
 
 def p_rowseq(at):
@@ -393,7 +393,68 @@ class C02Executor(Executor):
     def b_enumerate(self, st, args, kwargs, node):
         if args and isinstance(args[0], VExt) and args[0].sort == "StrRow":
             args = [row_seq(st, args[0].t)] + list(args[1:])
-        return super().b_enumerate(st, args, kwargs, node)
+        res = super().b_enumerate(st, args, kwargs, node)
+        if args and isinstance(args[0], VSeq) and args[0].tag is not None:
+            for (_s, v) in res:
+                if isinstance(v, VSeq) and v.tag is None:
+                    v.tag = ("enumerate",) + tuple(args[0].tag)
+        return res
+
+    _comp_counter = 0
+
+    def _comp_as_loop(self, n, st):
+        """[elt for x in seq if c] over a sequence of symbolic length == the loop `tmp = []; for x in seq: if c: tmp.append(elt)`
+        (same evaluation order, same exceptions): executed as that loop, so that a loop invariant identified by role applies
+        to it exactly as to the written-out loop.  -> [(state, list value)] or None when the shape is not a single generator."""
+        if len(n.generators) != 1 or n.generators[0].is_async:
+            return None
+        g = n.generators[0]
+        C02Executor._comp_counter += 1
+        tmp = f"_c02_comp_{C02Executor._comp_counter}"
+        call = ast.Expr(ast.Call(ast.Attribute(ast.Name(tmp, ast.Load()), "append", ast.Load()), [n.elt], []))
+        body = [call]
+        for cond in reversed(g.ifs):
+            body = [ast.If(cond, body, [])]
+        loop = ast.For(g.target, g.iter, body, [])
+        for x in ast.walk(loop):
+            ast.copy_location(x, n)
+        ast.fix_missing_locations(loop)
+        st.bind(tmp, self.new_list(st, []))
+        out = []
+        for o in self.exec_stmt(loop, st):
+            if o.kind == "fall":
+                out.append((o.st, o.st.lookup(tmp)))
+            elif o.kind == "raise":
+                self.raise_in(o.st, o.val)
+            else:
+                raise Unsupported(f"{self.loc(n)} control flow escaping a comprehension")
+        return out
+
+    def e_ListComp(self, n, st):
+        try:
+            return super().e_ListComp(n, st)
+        except Unsupported as e:
+            if "symbolic iterable" not in str(e):
+                raise
+            r = self._comp_as_loop(n, st)
+            if r is None:
+                raise
+            return r
+
+    def e_List(self, n, st):
+        if any(isinstance(e, ast.Starred) for e in n.elts):
+            # [*a, x, *b] with parts of symbolic length: built by successive extend / append
+            new = self.new_list(st, [])
+            cur = [st]
+            for e in n.elts:
+                nxt = []
+                for s1 in cur:
+                    for (s2, v) in self.ev(e.value if isinstance(e, ast.Starred) else e, s1):
+                        self.list_method(s2, new, "extend" if isinstance(e, ast.Starred) else "append", [v], {}, n)
+                        nxt.append(s2)
+                cur = nxt
+            return [(s1, new) for s1 in cur]
+        return super().e_List(n, st)
 
     def e_GeneratorExp(self, n, st):
         try:
@@ -401,8 +462,15 @@ class C02Executor(Executor):
         except Unsupported as e:
             if "symbolic iterable" not in str(e):
                 raise
+            try:
+                r = self._comp_as_loop(n, st)
+            except Unsupported:
+                r = None
+            if r is not None:
+                return r
             # a generator over a sequence of symbolic length whose value is only consumed by an aggregate (max/min/sum):
             # nothing is known about the aggregate (sound over-approximation; any use of it is then unconstrained)
+            st.assume(ABSTRACTED)
             self.exc_any(st.fork(), f"{self.loc(n)} generator over a symbolic sequence")
             return [(st, VUnk("genexp"))]
 
